@@ -448,6 +448,31 @@ func runStream(t *testing.T, tape *Tape, w *World, variant string, steps int, ou
 			}
 		}
 	}
+	if v == nil && ok {
+		// the client half-closes (CloseSend) and waits for the final status: the call has to be
+		// answered (C16: every request is answered with a status, none wedges the server)
+		var closed []*strClient
+		for _, cl := range clients {
+			if !cl.ended {
+				close(cl.in)
+				closed = append(closed, cl)
+			}
+		}
+		for round := 0; round < 3 && v == nil; round++ {
+			v, _ = c.run(4000, after)
+			time.Sleep(time.Second)
+			S.Settle()
+		}
+		if v == nil {
+			for _, cl := range closed {
+				if !cl.ended {
+					v = viol("C16", "stream_not_answered", "%s: the client half-closed the stream and waited: StreamingPull was not answered with a status within 3 s of virtual time at quiescence", cl.id)
+					break
+				}
+				r.Stats["stream_half_closed_answered"]++
+			}
+		}
+	}
 	for _, cl := range clients {
 		r.Stats["stream_sends"] += cl.sends
 	}
